@@ -229,7 +229,9 @@ func (e *Engine) makeParamSlice(st *State, name string, elem types.Type, fixedLe
 	r.dynLen = n
 	lo, hi := intRange(elem)
 	st.mem.cells[pathKey(r.id, nil)] = &Term{Op: "var", Sort: SArr, Name: name + "[]", Lo: lo, Hi: hi}
-	return &SliceVal{reg: r, off: mkInt64(0), length: n, capacity: mkIntVarR("cap("+name+")", big0, big.NewInt(1<<40)), elem: elem, backingN: -1}
+	cp := mkIntVarR("cap("+name+")", big0, big.NewInt(1<<40))
+	st.assume(mkLe(n, cp))
+	return &SliceVal{reg: r, off: mkInt64(0), length: n, capacity: cp, elem: elem, backingN: -1}
 }
 
 func (e *Engine) fillParamRegion(st *State, r *Region, path []int, t types.Type, name string, depth int) {
@@ -450,9 +452,7 @@ func (e *Engine) checkReturn(ex Exit, fr *Frame, fn *ssa.Function, c *Contract, 
 	env.results = ex.results
 	// lemma instances requested by the contract
 	for _, u := range c.Using {
-		for _, h := range e.instantiateLemma(env, u) {
-			st.assume(h)
-		}
+		e.tryLemma(st, env, u)
 	}
 	for i, en := range c.Proves {
 		g := env.boolTerm(en.Expr)
@@ -467,15 +467,14 @@ func (e *Engine) checkReturn(ex Exit, fr *Frame, fn *ssa.Function, c *Contract, 
 				st2 := st.fork()
 				env2 := *env
 				env2.st = st2
-				a := env2.boolTerm(ce.Args[0])
-				if a.IsConst() && a.Val.Sign() == 0 {
+				a := substitute(env2.boolTerm(ce.Args[0]), st2.subst)
+				if knownFalse(st2, a) {
+					e.addObligation(st2, fr, "ensures", strconv.Itoa(i), tTrue, en.Text)
 					continue
 				}
 				st2.assume(a)
 				for _, u := range c.Using {
-					for _, h := range e.instantiateLemma(&env2, u) {
-						st2.assume(h)
-					}
+					e.tryLemma(st2, &env2, u)
 				}
 				g := env2.boolTerm(ce.Args[1])
 				e.addObligation(st2, fr, "ensures", strconv.Itoa(i), g, en.Text)
@@ -775,4 +774,19 @@ func (e *Engine) weakRoots(fn *ssa.Function, c *Contract, args []Value) map[stri
 		}
 	}
 	return out
+}
+
+// tryLemma instantiates a `using` clause; instances that cannot be evaluated in this state (for
+// example because they mention a local that is not defined on this path) are skipped.
+func (e *Engine) tryLemma(st *State, env *SpecEnv, u *Clause) {
+	defer func() {
+		if r := recover(); r != nil {
+			if _, ok := r.(engineError); !ok {
+				panic(r)
+			}
+		}
+	}()
+	for _, h := range e.instantiateLemma(env, u) {
+		st.assume(h)
+	}
 }
